@@ -1,6 +1,7 @@
 package checks
 
 import (
+	"fmt"
 	"sync"
 )
 
@@ -64,6 +65,10 @@ func C15(c *Ctx) {
 	c.Outside = append(c.Outside, "longer histories than three parses (no inductive reset step registered)", "real thread-level concurrency (only sequential interleaving of whole parses on distinct contexts)", "TypeScript variant")
 	c.Harnesses = append(c.Harnesses, "generated zz_verif_spec.go:VerifHistory")
 	runGenEntry(c, "C15", "VerifHistory", []int{nx, ny}, GoVariants, []string{"after-accept", "after-reject"}, nil)
+	c.Bound("interleaving: a complete parse of y on a second context inside the k-th reduction (k symbolic) of a parse of x; object-mode variants")
+	c.Harnesses = append(c.Harnesses, "generated zz_verif_spec.go:VerifInterleave")
+	c.Explanation += " Interleaving on distinct contexts is explored at the granularity of semantic actions: the harness starts a complete parse on a fresh context from inside a solver-chosen reduction of another parse and requires both outcomes to equal the solo runs; the set of package-level variables written during an object-mode parse is recorded as a note."
+	runGenEntry(c, "C15", "VerifInterleave", []int{nx + 1, ny}, []string{"go-o", "go-o-u"}, []string{"interleaved"}, nil)
 }
 
 func C17(c *Ctx) {
@@ -84,4 +89,23 @@ func C11(c *Ctx) {
 	c.Outside = append(c.Outside, "TypeScript variant", "token declaration mixes outside the corpus (see C11-U in DESIGN.md)")
 	c.Harnesses = append(c.Harnesses, "harness/gen/ref.go.txt:VerifTranslate")
 	runGenEntry(c, "C11", "VerifTranslate", nil, GoVariants, []string{"token", "eof", "other"}, nil)
+	// U: the numbering pass itself with symbolic explicit numbers
+	eng, err := LoadRepo("Parser")
+	if err != nil {
+		c.Inconclusive("%v", err)
+		return
+	}
+	kmax := 3
+	if c.Thorough() {
+		kmax = 4
+	}
+	c.Harnesses = append(c.Harnesses, "harness/Parser/zz_verif_toknum.go:VerifTokenNumbers")
+	c.Bound("C11-U: astDeclareVistor.Process on up to %d named token declarations (names chosen by the solver from {A,B,C,D}, redeclarations included) with symbolic explicit numbers in [-3,130] (0 = automatic), two character literals and a %%type name", kmax)
+	c.Assumptions = append(c.Assumptions, "the user's explicit numbers are pairwise distinct, differ from the literal codes used and from -1, and a token is given at most one explicit number")
+	c.Explanation += " C11-U: the numbering pass astDeclareVistor.Process runs symbolically on declaration lists whose explicit token numbers are solver variables; all terminal codes must be pairwise distinct, different from -1, explicit numbers and literal codes kept."
+	for k := 1; k <= kmax; k++ {
+		c.RunSym(SymJob{Name: fmt.Sprintf("token numbers k=%d", k), Eng: eng, PkgPath: RepoModule + "/Parser", Entry: "VerifTokenNumbers",
+			Args: []int{k}, Replay: ReplaySpec{Kind: "repo", PkgDirs: []string{"Parser"}}})
+	}
+	c.NeedCovers("pair", "explicit")
 }
